@@ -340,6 +340,9 @@ class BinaryExpression(TypedExpression):
                 operator_node,
                 right_node,
             )
+            # RFC-0166 keeps at most one blank line between tokens.
+            operator_gap_lines = min(operator_gap_lines, 2)
+            right_gap_lines = min(right_gap_lines, 2)
             if comments_before_operator and operator_gap_lines:
                 operator_gap_lines = 1
             if comments_before_right and right_gap_lines:
